@@ -267,6 +267,7 @@ impl TypeChecker {
                         self.error_cannot_assign_to_this_expression(p)
                     );
                 };
+                self.check_assignable(p, &path_value)?;
 
                 let ty = path_value.final_type();
                 let ctx = ctx.with_type(ty);
@@ -286,6 +287,7 @@ impl TypeChecker {
                         self.error_cannot_assign_to_this_expression(&c.path)
                     );
                 };
+                self.check_assignable(&c.path, &path_value)?;
 
                 let ty = path_value.final_type();
                 let ctx = ctx.with_type(ty);
@@ -609,6 +611,30 @@ impl TypeChecker {
                 Ok(diverges)
             }
         }
+    }
+
+    /// Only local variables (and their fields) can be assigned to: a
+    /// constant or a context variable is not a place a script may write.
+    fn check_assignable(
+        &self,
+        path: &Meta<ast::Path>,
+        value: &PathValue,
+    ) -> TypeResult<()> {
+        let what = match value.kind {
+            ValueKind::Local => return Ok(()),
+            ValueKind::Constant => "a constant",
+            ValueKind::Context(_) => "a context variable",
+        };
+        let mut err = self.error_simple(
+            format!("cannot assign to {what}"),
+            format!("`{}` is {what}", value.name.ident),
+            path.id,
+        );
+        err.notes.push(
+            "you can only assign to a variable or fields of a variable"
+                .into(),
+        );
+        Err(err)
     }
 
     fn literal(
